@@ -423,12 +423,62 @@ def arc_endpoint_mismatch(segs, size):
     return False
 
 
+def gen_special_path(rng):
+    """paths on which "the path's box is the union of its segments' boxes" is easy to get wrong: segments that
+    return to their own start without being a point (closed cubic / quadratic loops), genuinely degenerate point
+    segments (connected, and isolated far from the rest), nearly closed arcs"""
+    mode = rng.choice(['loop-cubic', 'loop-cubic', 'loop-quad', 'point-seg', 'isolated-point', 'near-closed-arc', 'mixed'])
+    ri = lambda lo, hi: float(rng.randint(lo, hi))
+    p = complex(ri(-20, 20), ri(-20, 20))
+    lead = ('line', [p - complex(ri(1, 6), ri(-2, 2)), p])
+    tail = ('line', [p, p + complex(ri(1, 6), ri(-2, 2))])
+
+    def loop_cubic(q):      # teardrop: start == end, the loop reaches far beyond the neighbours
+        sg = rng.choice([1, -1])
+        return ('cubic', [q, q + complex(ri(3, 30), sg * ri(3, 30)), q + complex(-ri(3, 30), sg * ri(3, 30)), q])
+
+    def loop_quad(q):       # out and back along a segment: start == end, extent control/2
+        return ('quad', [q, q + complex(ri(-30, 30), ri(4, 30) * rng.choice([1, -1])), q])
+
+    def point_seg(q):
+        return rng.choice([('line', [q, q]), ('quad', [q, q, q]), ('cubic', [q, q, q, q])])
+
+    def near_closed_arc(q):
+        rx = 10 ** rng.uniform(0, 1.5); ry = rx * rng.choice([1, 0.5, 2])
+        e = q + complex(rng.choice([1, -1]), rng.choice([1, -1, 0])) * 10 ** rng.uniform(-6, -2) * rx
+        return ('arc', dict(start=q, radius=complex(rx, ry), rotation=float(rng.choice([0, 30, 90, rng.uniform(0, 180)])),
+                            large_arc=True, sweep=rng.random() < 0.5, end=e))
+    if mode == 'loop-cubic':
+        segs = [lead, loop_cubic(p), tail]
+        if rng.random() < 0.3: segs = [loop_cubic(p), tail]
+        if rng.random() < 0.2: segs = [('quad', [p - 2, p - 1 + 1j, p]), loop_cubic(p)]
+    elif mode == 'loop-quad':
+        segs = [lead, loop_quad(p), tail]
+    elif mode == 'point-seg':
+        segs = [lead, point_seg(p), tail]
+        if rng.random() < 0.3: segs = [point_seg(p)]
+    elif mode == 'isolated-point':      # a disconnected path: the point is nobody's end point
+        q = p + complex(ri(30, 90) * rng.choice([1, -1]), ri(30, 90) * rng.choice([1, -1]))
+        segs = [lead, point_seg(q), tail]
+        rng.shuffle(segs)
+    elif mode == 'near-closed-arc':
+        a = near_closed_arc(p)
+        segs = [lead, a, ('line', [a[1]['end'], a[1]['end'] + complex(ri(1, 6), ri(-2, 2))])]
+    else:
+        a = near_closed_arc(p)
+        segs = [lead, loop_cubic(p), point_seg(p), loop_quad(p), a]
+    return segs, mode
+
+
 def gen_case(rng):
-    k = rng.choice(['line', 'quad', 'quad', 'cubic', 'cubic', 'cubic', 'cubic', 'arc', 'arc', 'arc', 'path'])
+    k = rng.choice(['line', 'quad', 'quad', 'cubic', 'cubic', 'cubic', 'cubic', 'arc', 'arc', 'arc', 'path', 'path'])
     if k == 'line': d, m = gen_line(rng)
     elif k == 'quad': d, m = gen_quad(rng)
     elif k == 'cubic': d, m = gen_cubic(rng)
     elif k == 'arc': d, m = gen_arc(rng)
+    elif rng.random() < 0.5:
+        segs, m = gen_special_path(rng)
+        return 'path', segs, 'path/' + m
     else:
         segs = []
         for _ in range(rng.randint(1, 5)):
@@ -481,6 +531,9 @@ def run(rep, tier, seed, replay=None):
                                      radius=43.40627831336215 + 86.8125566267243j, rotation=6.139591554618287e-06,
                                      large_arc=False, sweep=True, end=132.18097432261396 - 26.471051677633955j),
                          'corpus/start-on-extreme'))
+            # hand-picked: a teardrop cubic loop (start == end) between two lines: M 0,0 L 2,0 C 6,5 -2,5 2,0 L 4,0
+            todo.append(('path', [('line', [0j, 2 + 0j]), ('cubic', [2 + 0j, 6 + 5j, -2 + 5j, 2 + 0j]),
+                                  ('line', [2 + 0j, 4 + 0j])], 'corpus/teardrop-loop'))
             for _ in range(n):
                 todo.append(gen_case(rng))
         cases, meta = [], []
@@ -492,8 +545,6 @@ def run(rep, tier, seed, replay=None):
             modes[key] = modes.get(key, 0) + 1
             try:
                 if kind == 'path':
-                    if any(k in ('line',) and d[0] == d[1] for k, d in data):
-                        data = [(k, d) for k, d in data if not (k == 'line' and d[0] == d[1])] or [('line', [0j, 1 + 1j])]
                     segs = [make_seg(k, d) for k, d in data]
                     path = Path(*segs)
                     box = tuple(float(v) for v in path.bbox())
